@@ -489,7 +489,7 @@ func C01(e *core.Env) {
 	res := e.Res
 	res.Rule = "cases = (formula, graph); every target node of the graph is a truth assignment / value configuration and its verdict is compared with the extracted model (parser + failure DNF + atom snippets) and with the classical semantics; " +
 		"streams: skeleton (all formulas with <= 2 (quick) / <= 3 (thorough) connectives over 3 single-valued atoms, count and `in` flavours, x all 8 assignments), quantifier (nested/atLeast/atMost, k=0..3, under not/or/if, nested in each other), " +
-		"atom (every documented constraint kind x value sets of size 0..2 x both polarities), random (depth <= 5 / 7, width <= 4); non-trivial = the formula reports at least one target node and spares at least one; distinct by formula text"
+		"atom (every documented constraint kind x value sets of size 0..2 x both polarities), random (depth <= 5 / 7, width <= 4), history (12 random formulas written over the built-in prefix `core` instead of a declared prefix, validated before and after another profile that rebinds core / data / doc / shacl / apiContract / ex was compiled and run); non-trivial = the formula reports at least one target node and spares at least one; distinct by formula text"
 
 	// ---- (i) skeleton stream
 	k := 3
@@ -795,6 +795,94 @@ func C01(e *core.Env) {
 	res.Sample(map[string]any{"stream": "random", "formula": core.Trunc(rcases[0].f.String(), 600)})
 	runC01(e, tg, rcases, "r", 20)
 	res.Note(fmt.Sprintf("random stream: %d formulas, %.1fs", len(rcases), time.Since(t0).Seconds()))
+
+	// ---- (v) histories: the verdict of a profile that relies on a built-in prefix does not depend on which other
+	// profiles the process compiled before (in particular profiles that bind the same prefix name to something else)
+	t0 = time.Now()
+	{
+		const coreNS = "http://a.ml/vocabularies/core#"
+		hcases := rcases
+		if len(hcases) > 12 {
+			hcases = hcases[:12]
+		}
+		mk := func(prefix string, declare bool) string {
+			var b strings.Builder
+			b.WriteString("#%Validation Profile 1.0\nprofile: gen\n")
+			if declare {
+				b.WriteString("prefixes:\n  ex: http://example.org/ns#\n")
+			}
+			b.WriteString("violation:\n")
+			for i := range hcases {
+				fmt.Fprintf(&b, "  - v%d\n", i)
+			}
+			b.WriteString("validations:\n")
+			for i, c := range hcases {
+				m := c.f.Expr()
+				m["targetClass"] = "ex.T"
+				m["message"] = "m"
+				d, _ := json.Marshal(m)
+				fmt.Fprintf(&b, "  v%d: %s\n", i, strings.ReplaceAll(string(d), "ex.", prefix+"."))
+			}
+			return b.String()
+		}
+		verdict := func(profile, data string) (string, error) {
+			out, err := pkg.Validate(profile, data, false, nil)
+			if err != nil {
+				return "", err
+			}
+			rep, err := ParseReport(out)
+			if err != nil {
+				return "", err
+			}
+			items := []string{}
+			for name, m := range rep.FocusByName() {
+				for focus, ok := range m {
+					if ok {
+						items = append(items, name+" "+focus)
+					}
+				}
+			}
+			sort.Strings(items)
+			return strings.Join(items, "\n"), nil
+		}
+		dataEx := tg.JSONLD()
+		dataCore := strings.ReplaceAll(dataEx, ExNS, coreNS)
+		pEx, pCore := mk("ex", true), mk("core", false)
+		other := "#%Validation Profile 1.0\nprofile: Other\nprefixes:\n  core: http://elsewhere.example/core#\n  data: http://elsewhere.example/data#\n  doc: http://elsewhere.example/doc#\n  shacl: http://elsewhere.example/shacl#\n  apiContract: http://elsewhere.example/api#\n  ex: http://elsewhere.example/ex#\n" +
+			"violation:\n  - o\nvalidations:\n  o:\n    targetClass: core.T\n    message: other\n    propertyConstraints:\n      core.c0:\n        minCount: 1\n      data.x / doc.y:\n        maxCount: 3\n"
+		ref, err0 := verdict(pEx, dataEx)
+		before, err1 := verdict(pCore, dataCore)
+		_, errO := pkg.CompileProfile(other, false, nil)
+		_, errO2 := pkg.Validate(other, dataCore, false, nil)
+		after, err2 := verdict(pCore, dataCore)
+		afterEx, err3 := verdict(pEx, dataEx)
+		replay := map[string]any{"history": []string{"Validate(profile_with_declared_prefix, data)", "Validate(profile_with_builtin_prefix, data_core)", "CompileProfile(other_profile)", "Validate(other_profile, data_core)", "Validate(profile_with_builtin_prefix, data_core)", "Validate(profile_with_declared_prefix, data)"},
+			"profile_with_declared_prefix": pEx, "profile_with_builtin_prefix": pCore, "other_profile": other, "data": core.Trunc(dataEx, 3000), "data_core": "the same graph with " + ExNS + " replaced by " + coreNS}
+		for _, err := range []error{err0, err1, errO, errO2, err2, err3} {
+			if err != nil {
+				replay["error"] = err.Error()
+				res.Violate("impl-violates-property", "a step of the history is rejected: "+core.Trunc(err.Error(), 200), replay)
+				break
+			}
+		}
+		if err0 == nil && err1 == nil && err2 == nil && err3 == nil {
+			replay["reported_with_declared_prefix"] = ref
+			switch {
+			case before != ref:
+				replay["reported_with_builtin_prefix"] = before
+				res.Violate("impl-violates-property", "the same formulas over the built-in prefix `core` (same graph, renamed namespace) report different nodes", replay)
+			case after != ref:
+				replay["reported_with_builtin_prefix_after_the_other_profile"] = after
+				res.Violate("impl-violates-property", "the verdict of a profile that relies on a built-in prefix changes after another profile that rebinds that prefix name was compiled", replay)
+			case afterEx != ref:
+				replay["reported_with_declared_prefix_after_the_other_profile"] = afterEx
+				res.Violate("impl-violates-property", "the verdict of a profile changes after another profile that binds its prefix name to another namespace was compiled", replay)
+			}
+		}
+		res.Case("history|builtin-prefix-after-rebinding-profile", ref != "")
+		res.Count("stream=history")
+	}
+	res.Note(fmt.Sprintf("history stream: %.1fs", time.Since(t0).Seconds()))
 
 	keys := []string{}
 	for k := range res.Distribution {
